@@ -2342,3 +2342,99 @@ def c20_worker(item):
 def cli_c20(v, tier, seed):
     b = rq()
     cli.pool_run(v, c20_worker, [(seed * 1_000_003 + i, b) for i in range(n(tier, 1500, 25000))])
+
+
+# ----------------------------------------------------------------------------
+# sanitizer layers for CLI properties (thorough tier)
+
+
+def c06_tsan_worker(item):
+    import re
+    seed, binary, tsan = item
+    r = random.Random(seed * 1000003 + 66)
+    res = Res()
+    cfg = wsgen.GenConfig(p_fail=0.6, max_patches=r.choice([3, 6, 10]), max_files=r.choice([3, 6, 8]), max_ops=3)
+    cfg.p_second_fail = 0.5
+    ws = wsgen.generate(seed, cfg)
+    nthreads = r.choice([2, 4, 8, 16])
+    a_par = base_args(threads=nthreads, backup=r.choice(["always", None]), verbosity=r.choice(["-q", None])) + ["push", "-a"]
+    with Scratch("c06t") as scr:
+        orig, work = fresh(scr, ws, 0)
+        env = {"TSAN_OPTIONS": "halt_on_error=0 exitcode=66 second_deadlock_stack=1"}
+        if r.random() < 0.5:
+            sp = os.path.join(scr, "sched.txt")
+            with open(sp, "w") as f:
+                f.write("delay apply-begin:* %d\ndelay save-create:* %d\ndelay save-unlink:* %d\n" % (r.choice([0, 1, 2]), r.choice([0, 1]), r.choice([0, 1])))
+            env["RAPIDQUILT_VERIF_SCHED"] = sp
+        rr = runner.run_rq(tsan, work, a_par, env_extra=env, timeout=300)
+        res["evals"] = 1
+        if rr.timed_out:
+            res["inconclusive"] = "watchdog (tsan)"
+            return res
+        err = rr.err.decode("utf-8", "replace")
+        if "ThreadSanitizer" in err or rr.rc == 66:
+            m = re.search(r"WARNING: ThreadSanitizer: ([^\n(]+)", err)
+            frames = re.findall(r"#\d+ (\S+) [^\n]*?(src/[\w/]+\.rs):(\d+)", err)
+            first = "%s:%s" % (frames[0][1], frames[0][0]) if frames else "?"
+            res.viol({"class": "thread-sanitizer-report", "engine": "tsan", "kind": (m.group(1).strip() if m else "?"), "first_repo_frame": first},
+                     "ThreadSanitizer: %s" % err[-1500:], orig, [tsan] + a_par)
+            return res
+        if rr.rc not in (0, 1):
+            res.viol({"class": "crash", "engine": "tsan", "rc": str(rr.rc)}, err[-400:], orig, [tsan] + a_par)
+            return res
+        res.count("tsan-runs-without-report")
+        res["nontrivial"].append(case_key("tsan", cli.ws_shape_key(ws), nthreads))
+    return res
+
+
+def san_c06(v, tier, seed):
+    if tier == Q:
+        return
+    from common import build_tsan_binary
+    b = rq()
+    t = build_tsan_binary()
+    cli.pool_run(v, c06_tsan_worker, [(seed * 1_000_003 + i, b, t) for i in range(600)])
+
+
+def memcheck_worker(item):
+    """--mmap workloads under valgrind memcheck: a read of an unmapped file or a write through the mapping shows up here"""
+    seed, binary, prop = item
+    r = random.Random(seed * 1000003 + 99)
+    res = Res()
+    cfg = wsgen.GenConfig(p_fail=0.4, max_patches=r.choice([1, 3, 5]))
+    ws = wsgen.generate(seed, cfg)
+    threads = r.choice([1, 4])
+    args = base_args(threads=threads, backup=r.choice(["always", None]), verbosity="-q") + ["--mmap", "push", "-a"]
+    with Scratch("mc") as scr:
+        orig, work = fresh(scr, ws, 0)
+        log = os.path.join(scr, "vg.log")
+        rr = runner.run_rq(binary, work, args, pre=["valgrind", "-q", "--error-exitcode=99", "--log-file=" + log], timeout=600)
+        res["evals"] = 1
+        if rr.timed_out:
+            res["inconclusive"] = "watchdog (valgrind)"
+            return res
+        vg = open(log, "r", errors="replace").read() if os.path.exists(log) else ""
+        if rr.rc == 99 or "Invalid " in vg or "Process terminating" in vg:
+            import re
+            m = re.search(r"== (Invalid [^\n]+|Process terminating[^\n]+|Syscall param[^\n]+)", vg)
+            res.viol({"class": "memcheck-report", "engine": "valgrind", "kind": (m.group(1)[:40] if m else "?")}, "valgrind: %s" % vg[-1500:], orig, [binary] + args)
+            return res
+        out = cli.check_push_outcome(res, ws, work, rr, 0, len(ws.patches), {"engine": "valgrind", "driver": "seq" if threads == 1 else "par"}, [binary] + args)
+        if out:
+            res.count("memcheck-runs-clean-and-correct")
+            res["nontrivial"].append(case_key("vg", cli.ws_shape_key(ws), threads))
+    return res
+
+
+def san_c14(v, tier, seed):
+    if tier == Q:
+        return
+    b = rq()
+    cli.pool_run(v, memcheck_worker, [(seed * 1_000_003 + i, b, "C14") for i in range(400)])
+
+
+def san_c15(v, tier, seed):
+    if tier == Q:
+        return
+    b = rq()
+    cli.pool_run(v, memcheck_worker, [(seed * 1_000_003 + 500_000 + i, b, "C15") for i in range(400)])
